@@ -282,8 +282,8 @@ def main(argv=None):
     t0 = time.time()
     try:
         mod = load_module(pid)
-    except ModuleNotFoundError as e:
-        print("INCONCLUSIVE: no check module for %s (%s)" % (pid, e))
+    except BaseException as e:   # a check that cannot even be loaded is a harness error, never a verdict
+        print("INCONCLUSIVE: check module for %s cannot be loaded (%s: %s)" % (pid, type(e).__name__, e))
         return 2
     nshards = a.shards or (
         getattr(mod, "QUICK_SHARDS", 4) if tier == "quick" else getattr(mod, "THOROUGH_SHARDS", 16)
@@ -489,4 +489,12 @@ def finish(pid, mod, tier, seed, nshards, results, problems, t0, replay=None):
 
 
 if __name__ == "__main__":
-    sys.exit(main())
+    try:
+        rc = main()
+    except SystemExit:
+        raise
+    except BaseException:   # harness failure: inconclusive, not a violation
+        traceback.print_exc()
+        print("INCONCLUSIVE: the runner itself failed")
+        rc = 2
+    sys.exit(rc)
